@@ -85,10 +85,105 @@ class _AttrRename(ast.NodeTransformer):
         return node
 
 
+_CONSTS = None
+
+
+def known_consts():
+    global _CONSTS
+    if _CONSTS is None:
+        p = os.path.join(os.path.dirname(__file__), 'known_consts.txt')
+        _CONSTS = {l.strip() for l in open(p) if l.strip()} if os.path.exists(p) else None
+    return _CONSTS
+
+
+def _literal(v):
+    """immutable literal: constant, or tuple/list/set/frozenset(...) display of such"""
+    if isinstance(v, ast.Constant):
+        return True
+    if isinstance(v, (ast.Tuple, ast.List, ast.Set)):
+        return all(_literal(e) for e in v.elts)
+    if isinstance(v, ast.Call) and isinstance(v.func, ast.Name) and v.func.id in ('frozenset', 'tuple') and len(v.args) == 1 and not v.keywords:
+        return _literal(v.args[0])
+    return False
+
+
+class _ConstInline(ast.NodeTransformer):
+    def __init__(self, mod_consts, cls_consts):
+        self.mod_consts, self.cls_consts = mod_consts, cls_consts
+        self.shadow = [set()]
+        self.cls = [None]
+
+    def visit_ClassDef(self, node):
+        self.cls.append(node.name)
+        self.generic_visit(node)
+        self.cls.pop()
+        return node
+
+    def visit_FunctionDef(self, node):
+        local = {a.arg for a in ast.walk(node.args) if isinstance(a, ast.arg)}
+        local |= {n.id for n in ast.walk(node) if isinstance(n, ast.Name) and isinstance(n.ctx, (ast.Store, ast.Del))}
+        self.shadow.append(local)
+        self.generic_visit(node)
+        self.shadow.pop()
+        return node
+
+    def visit_Name(self, node):
+        if isinstance(node.ctx, ast.Load) and node.id in self.mod_consts and not any(node.id in s for s in self.shadow[1:]):
+            import copy
+            return ast.copy_location(copy.deepcopy(self.mod_consts[node.id]), node)
+        return node
+
+    def visit_Attribute(self, node):
+        self.generic_visit(node)
+        if isinstance(node.ctx, ast.Load) and isinstance(node.value, ast.Name) and node.value.id in ('self', 'cls') and self.cls[-1] is not None \
+                and (self.cls[-1], node.attr) in self.cls_consts:
+            import copy
+            return ast.copy_location(copy.deepcopy(self.cls_consts[(self.cls[-1], node.attr)]), node)
+        return node
+
+
+def deconstant(trees):
+    """Module-level / class-level names that are not in the inventory (known_consts.txt), are bound once
+    to an immutable literal and never rebound are replaced by the literal at their uses in the same
+    module (class constants: at self.NAME / cls.NAME inside the class): a repeated literal that a
+    refactoring gave a name reads as the literal again."""
+    known = known_consts()
+    notes = []
+    if known is None:
+        return notes
+    for mod, tree in trees.items():
+        stores = {}
+        for n in ast.walk(tree):
+            if isinstance(n, ast.Name) and isinstance(n.ctx, (ast.Store, ast.Del)):
+                stores[n.id] = stores.get(n.id, 0) + 1
+            elif isinstance(n, ast.Global):
+                for g in n.names:
+                    stores[g] = stores.get(g, 0) + 2
+        mod_consts, cls_consts = {}, {}
+        for st in tree.body:
+            if isinstance(st, ast.Assign) and len(st.targets) == 1 and isinstance(st.targets[0], ast.Name) and _literal(st.value):
+                nm = st.targets[0].id
+                if f'{mod}.{nm}' not in known and stores.get(nm) == 1 and not nm.startswith('__'):
+                    mod_consts[nm] = st.value
+            elif isinstance(st, ast.ClassDef):
+                for cs in st.body:
+                    if isinstance(cs, ast.Assign) and len(cs.targets) == 1 and isinstance(cs.targets[0], ast.Name) and _literal(cs.value):
+                        nm = cs.targets[0].id
+                        if f'{mod}.{st.name}.{nm}' not in known and not nm.startswith('__'):
+                            cls_consts[(st.name, nm)] = cs.value
+        if mod_consts or cls_consts:
+            _ConstInline(mod_consts, cls_consts).visit(tree)
+            for nm in mod_consts:
+                notes.append(f'{mod}: constant {nm} inlined')
+            for (c, nm) in cls_consts:
+                notes.append(f'{mod}.{c}: constant {nm} inlined')
+    return notes
+
+
 def derename(trees):
     """Rewrite trees in place; returns notes."""
     inv_attrs, inv_funcs = inventory()
-    notes = []
+    notes = deconstant(trees)
     if not inv_attrs and not inv_funcs:
         return notes
     all_known_attr_names = {a for d in inv_attrs.values() for a in d}
